@@ -135,8 +135,10 @@ def liveStack : List Int → List (Int × Int) → List (Int × Int)
 
 def absSlot (a : List Int) (count : Nat) : List (Int × Int) := (liveStack (a.take (2 * count)) []).reverse
 
-def abs (b : Builder) : List (List (Int × Int)) :=
-  (List.range b.matchcount.length).map (fun c => absSlot (arr b c) (cnt b c))
+/-- the live captures of group `c` -/
+def absOf (b : Builder) (c : Nat) : List (Int × Int) := absSlot (arr b c) (cnt b c)
+
+def abs (b : Builder) : List (List (Int × Int)) := (List.range b.matchcount.length).map (absOf b)
 
 /-! ### the interpreter primitives (runner.go) -/
 
